@@ -16,14 +16,25 @@ FINISH = dict(level='proof', rule='(timeout in {None, 0, small ints}, per-iterat
               'outcome and finishing time compared with the model; likewise waitnoecho with a scripted echo flag; distinct = distinct model inputs')
 
 
+class Runaway(Exception):
+    """the code under test keeps asking for the time: it is looping without a bound (a check must not hang with it)"""
+
+
 class Clock:
     def __init__(self, start):
         self.now = float(start)
+        self.calls = 0
 
     def time(self):
+        self.calls += 1
+        if self.calls > 20000:
+            raise Runaway()
         return self.now
 
     def sleep(self, d):
+        self.calls += 1
+        if self.calls > 20000:
+            raise Runaway()
         self.now += d
 
 
@@ -77,6 +88,11 @@ def vclock_cases(ctx, pexpect, n):
                 out = 1
             except pexpect.EOF:
                 out = 2
+            except Runaway:
+                out = 9
+                if nhit < 3:
+                    nhit += 1
+                    ctx.hit('C05/unbounded', 'expect_exact(timeout=%r) kept looping: it did not return within 20000 looks at the clock' % (T,), {'T': T, 'start': start})
         finally:
             ex.time = old
         fin = int(round(clock.now))
@@ -122,12 +138,16 @@ def waitnoecho_cases(ctx, pexpect, n):
 
             @staticmethod
             def sleep(d):
+                clock.sleep(0)
                 clock.now += 1          # one polling interval = 1 tick
         ps.time = TM
         try:
             try:
                 r = c.waitnoecho(timeout=T)
                 res = 1 if r else 0
+            except Runaway:
+                res = 9
+                ctx.hit('C05/waitnoecho-unbounded', 'waitnoecho(timeout=%r) with echo %s did not return within 10000 polling intervals' % (T, 'never switched off' if off is None else 'switched off at %d' % off), {'T': T, 'start': start, 'echo_off_at': off})
             except Exception as e:
                 res = 8
                 ctx.hit('C05/waitnoecho-raises', 'waitnoecho(timeout=%r) raised %r' % (T, e), {'T': T})
